@@ -377,6 +377,8 @@ def events(q, tier="quick"):
     for c in ("2.0", "0.5"):
         ev += [("idiv", c), ("imul", c)]
     ev += [("cat3", 0), ("stack3", 0), ("copy_into_plain",)]
+    if pertensor:
+        ev += [("cat3d", 0), ("stack3d", 0), ("cat4d", 0)]
     if isbytes:
         # in-place update through an alias covering the whole tensor, then observe the base
         for al in ("view_flat", "detach", "unsqueeze0") + (("t",) if r == 2 else ()) + (("transpose",) if r >= 2 else ()):
@@ -534,6 +536,17 @@ def build_call(q, ev):
         if p is None:
             return None
         return (lambda a, b: torch.cat([a, b, a], ev[1])), [q, p], X, 0, None
+    if name in ("cat3d", "stack3d", "cat4d"):
+        # several operands: the first ones share the scale, a later one has another scale
+        p = partner(q, "same")
+        d = partner(q, "diffscale")
+        if p is None or d is None:
+            return None
+        if name == "cat3d":
+            return (lambda a, b, c: torch.cat([a, b, c], ev[1])), [q, p, d], X, 0, None
+        if name == "cat4d":
+            return (lambda a, b, c: torch.cat([a, b, a, c], ev[1])), [q, p, d], X, 0, None
+        return (lambda a, b, c: torch.stack([a, b, c], ev[1])), [q, p, d], X, 0, None
     if name == "stack3":
         p = partner(q, "same")
         if p is None:
